@@ -40,6 +40,13 @@ CLAIMED["C01"] = dict(
     ref="DESIGN.md 4/C01",
 )
 
+CLAIMED["C27"] = dict(
+    technique="exhaustiveness of the generated class's overrides against the key-inserting methods of the interpreter's dict (introspecting the builtin, not the repo); dominance / must-follow of key validation around every base-class mutation; pickling-protocol shape; name agreement of all 36 declarations",
+    text="For any operation sequence: a key can enter the underlying dict only through dict's key-inserting methods; the check shows each is overridden and each override validates, so the only-declared-keys invariant holds for all sequences. Pickling: structural protocol shape and class findability. Does not decide equality of unpickled values.",
+    note="Trusted: dir(dict) of /venv/bin/python; CPython routes dict.fromkeys on subclasses through __setitem__ and returns plain dicts from | .",
+    ref="DESIGN.md 4/C27",
+)
+
 NOT_APPLICABLE = {
     "C12": "arithmetic over unbounded integers (quantisation error bounds, monotonicity of a rational formula): no structural clause; needs algebra/solver or execution",
     "C13": "partition/telescoping identities of floor arithmetic on runtime sizes; the functions are spec-pinned arithmetic with nothing to decide from code shape",
